@@ -24,7 +24,13 @@ TEMPLATES = {
     "add":  [A.estmt(A.asg(V("x"), B("+", V("x"), V("y"))))],
     "fl":   [A.estmt(A.asg(V("f"), B("+", V("x"), L(1)))), A.estmt(A.asg(V("y"), B(">", V("f"), A.lit_f(3, 1))))],
     "ald":  [A.estmt(A.asg(V("y"), A.idx(V("t"), L(1))))],
+    "gst":  [A.estmt(A.asg(V("g"), V("y")))],           # third link of a copy chain x = a; y = x; g = y
+    "gld":  [A.estmt(A.asg(V("x"), V("g")))],           # ... and a fourth one: x = g
 }
+
+# longer copy chains (every statement reads the variable the previous one wrote), included at every length bound
+EXTRA = [("st", "ld", "gst", "gld"), ("st", "ld", "gst", "gld", "ld"), ("st", "ld", "gst", "gld", "ld", "gst", "gld", "if"),
+         ("ld", "gst", "gld", "mst"), ("st", "ld", "gst", "gld", "call"), ("add", "ld", "gst", "gld", "ix")]
 
 
 def programs(maxlen):
@@ -32,7 +38,7 @@ def programs(maxlen):
     out = []
     idf = A.func("id", [("q", INT)], INT, A.block([A.estmt(A.asg(V("q"), B("+", V("q"), L(1)))), A.ret(V("q"))]))
     for n in range(1, maxlen + 1):
-        for seq in itertools.product(names, repeat=n):
+        for seq in list(itertools.product(names, repeat=n)) + (EXTRA if n == maxlen else []):
             body = [A.decl("x", INT, V("a")), A.decl("y", INT, L(1)), A.decl("f", FLOAT, L(2)), A.decl("s", S0), A.decl("t", A.arr(INT, [2]))]
             for nm in seq:
                 body += TEMPLATES[nm]
